@@ -8,7 +8,7 @@ import vlib
 
 def run(tier, V, machinery):
     depth, listed = (4, 2) if tier == "quick" else (5, 2)
-    cfg = "CONSTANTS Depth = %d MaxListed = %d\nSPECIFICATION Spec\nCHECK_DEADLOCK FALSE\nINVARIANTS Filed Valid MainViewStays Emit\n" % (depth, listed)
+    cfg = "CONSTANTS Depth = %d MaxListed = %d ND = 3\nSPECIFICATION Spec\nCHECK_DEADLOCK FALSE\nINVARIANTS Filed Valid MainViewStays DocOK Emit\n" % (depth, listed)
     r = vlib.run_tlc({"ReportViews.tla": None}, "ReportViews", cfg, workers=4, timeout=1800, heap="4g")
     if r.violation:
         machinery.append("spec/ReportViews.tla: %s violated in the model" % r.violation)
